@@ -3,4 +3,9 @@ import JoblibProofs.Lemmas.ParallelLock.Abort
 import JoblibProofs.Lemmas.ParallelLock.Steps2Cb
 import JoblibProofs.Lemmas.ParallelLock.Live
 import JoblibProofs.Lemmas.ParallelLock.Steps3
+import JoblibProofs.Lemmas.ParallelLock.TermInv4
+import JoblibProofs.Lemmas.ParallelLock.TermMeasure
+import JoblibProofs.Lemmas.ParallelLock.TermCb
+import JoblibProofs.Lemmas.ParallelLock.TermCaller
+import JoblibProofs.Lemmas.ParallelLock.TermDrain
 /-! Umbrella import for the M1L (`ParallelLock`) lemma files. -/
